@@ -1,4 +1,5 @@
 import RedisEmu.Exec
+import RedisEmu.Proofs.Random
 import RedisEmu.Props.C06
 import Mathlib.Tactic.SplitIfs
 /-
@@ -1017,5 +1018,43 @@ theorem reachable_sets_are_sets (evs : List Ev) (r : Nat) (k : Bytes) (e : Entry
   have := live_distinct (runEvents_distinct evs {} dinv_init r) h
   rw [hv] at this
   exact this
+
+/-! ### SRANDMEMBER: for every outcome of the random source (`RedisEmu.Random`) -/
+
+/-- **SRANDMEMBER.** `m` are the members of the set as the model stores them (no member twice, C05's
+    `Db.Distinct`), `bs` any bucket table holding exactly those members, `rs` whatever `rand.Intn` delivers.
+    If the selection comes to an end, the reply is one member (no count), min(n, SCARD) distinct members
+    (count n ≥ 0), or exactly |n| members with repeats allowed (count n < 0) — `validateRandom`, the same
+    predicate the correspondence run applies to every SRANDMEMBER reply of the implementation. -/
+theorem srandmember_reply (m : List Bytes) (bs : Buckets) (count : Option Int) (rs : List Nat) (v : Value)
+    (hd : m.Nodup) (hb : bs.members.Perm m) (h : randReply bs count rs = some v) :
+    validateRandom m count v = true := by
+  rw [← validateRandom_perm bs.members m hb]
+  exact random_reply_valid bs count rs v (hb.nodup_iff.mpr hd) h
+
+/-- a positive count: distinct members, as many as asked for or all of them -/
+theorem srandmember_positive_count (bs : Buckets) (n : Nat) (rs is : List Nat) (hm : bs.members.Nodup)
+    (h : pickUnique bs n rs = some is) :
+    (keysAt bs is).Nodup ∧ (keysAt bs is).length = min n bs.members.length ∧ ∀ k ∈ keysAt bs is, k ∈ bs.members := by
+  have ⟨hl, hn, ho⟩ := pickUnique_spec bs n rs is h
+  have ⟨kl, km⟩ := keysAt_spec bs is ho
+  exact ⟨keysAt_nodup bs hm is hn ho, by rw [kl, hl], km⟩
+
+/-- a negative count: exactly |count| members, repeats allowed -/
+theorem srandmember_negative_count (bs : Buckets) (n : Nat) (rs is : List Nat) (h : pickRandom bs n rs = some is) :
+    (keysAt bs is).length = n ∧ ∀ k ∈ keysAt bs is, k ∈ bs.members := by
+  have ⟨hl, ho⟩ := pickRandom_spec bs n rs is h
+  have ⟨kl, km⟩ := keysAt_spec bs is ho
+  exact ⟨by rw [kl, hl], km⟩
+
+/-- non-vacuity: a table of four buckets with three members; a sequence that hits an empty bucket and
+    a bucket twice; count 5 gives the three members, count -4 gives four with a repeat -/
+theorem srandmember_examples :
+    let bs : Buckets := [some [97], none, some [98], some [99]]
+    randReply bs (some 5) [1, 0, 0, 2, 1, 3, 3] = some (.array [.bulk [97], .bulk [98], .bulk [99]]) ∧
+    randReply bs (some (-4)) [1, 0, 0, 2, 1, 3] = some (.array [.bulk [97], .bulk [97], .bulk [98], .bulk [99]]) ∧
+    randReply bs none [5, 6] = some (.bulk [98]) ∧
+    randReply bs (some 2) [1, 1, 1] = none := by
+  refine ⟨rfl, rfl, rfl, rfl⟩
 
 end RedisEmu
